@@ -68,10 +68,15 @@ AesEnc(k, pt) == AesEncKS(AesKeySchedule(k), pt)
 \* shift a 16-octet block left by one bit
 ShiftL1(b) == Tup([i \in 1..Len(b) |-> ((b[i] * 2) % 256) + (IF i < Len(b) THEN b[i + 1] \div 128 ELSE 0)])
 CmacDbl(b) == LET s == ShiftL1(b) IN IF b[1] >= 128 THEN [s EXCEPT ![16] = @ ^^ 135] ELSE s
-RECURSIVE CmacChain(_, _, _, _)
+\* process nb full blocks of m, starting with block i (0-based), from chaining value x; in runs of 32 blocks, which keeps the
+\* evaluator's recursion shallow for messages of several KiB
+RECURSIVE CmacRun(_, _, _, _, _)
+CmacRun(ks, x, m, i, nb) == IF nb = 0 THEN x
+                            ELSE CmacRun(ks, AesEncKS(ks, XorBytes(x, SubSeq(m, 16 * i + 1, 16 * i + 16))), m, i + 1, nb - 1)
+RECURSIVE CmacChainAt(_, _, _, _, _)
+CmacChainAt(ks, x, m, i, nb) == IF nb <= 32 THEN CmacRun(ks, x, m, i, nb) ELSE CmacChainAt(ks, CmacRun(ks, x, m, i, 32), m, i + 32, nb - 32)
 \* process the first nb full blocks of m starting from chaining value x
-CmacChain(ks, x, m, nb) == IF nb = 0 THEN x
-                           ELSE CmacChain(ks, AesEncKS(ks, XorBytes(x, SubSeq(m, 1, 16))), Drop(m, 16), nb - 1)
+CmacChain(ks, x, m, nb) == CmacChainAt(ks, x, m, 0, nb)
 Cmac(k, m) ==
    LET ks == AesKeySchedule(k)
        l  == AesEncKS(ks, Zeros(16))
